@@ -16,7 +16,7 @@ use serde_json::{json, Value};
 use yamaquasi::{Preferences, Verbosity};
 
 use super::c04::{algo_of, install_global_panic_hook, install_pert, make_input, outcome_fields, run_factor, st_code, Pert, RunOut, PROGRESS};
-use crate::gen::Pool;
+use crate::gen::{Pool, Uint};
 use crate::trace::*;
 
 thread_local! {
@@ -123,6 +123,12 @@ pub fn run(args: &Args) -> i32 {
         // p^2 * q: the sieve leaves a composite cofactor (p^2 or p*q), so the recursion after the sieve is entered
         ("sq84", vec![28, 28]),
         ("sq96", vec![30, 36]),
+        // small prime factors in front (removed by the entry point's trial division before any stage): what is
+        // returned after an abort must still multiply to the ORIGINAL n.  sm3: 3 * p * q, smx: 2 * 3^2 * 1009 * p * q,
+        // sm7: 7 * p with p prime
+        ("sm3b70", vec![35, 35]),
+        ("smxb82", vec![41, 41]),
+        ("sm7p60", vec![60]),
     ];
     if thorough {
         shapes.extend(vec![("b120", vec![60, 60]), ("b130", vec![65, 65]), ("t130", vec![40, 44, 46]), ("b140", vec![70, 70]),
@@ -145,6 +151,11 @@ pub fn run(args: &Args) -> i32 {
             inp.primes.insert(0, p);
             let c = inp.chains[0].clone();
             inp.chains.insert(0, c);
+            inp
+        } else if name.starts_with("sm") {
+            let mut inp = make_input(&mut pool, &format!("{}-s{}", name, seed), bits);
+            let m: u64 = if name.starts_with("sm3") { 3 } else if name.starts_with("smx") { 2 * 9 * 1009 } else { 7 };
+            inp.n = inp.n * Uint::from(m);
             inp
         } else {
             make_input(&mut pool, &format!("{}-s{}", name, seed), bits)
